@@ -216,4 +216,38 @@ theorem sumproduct_swap (hc : ∀ a b : F, Num.mul a b = Num.mul b a) (ha : ∀ 
     (x y : F) (rest : List F) : fprod (x :: y :: rest) = fprod (y :: x :: rest) :=
   product_perm hc ha _ _ (List.Perm.swap y x rest)
 
+/-! ### SUBSTITUTE -/
+
+/-- the searched text occurs nowhere in `s` -/
+def Absent (old : List Char) : List Char → Prop
+  | [] => True
+  | c :: s => old.isPrefixOf (c :: s) = false ∧ Absent old s
+
+/-- **SUBSTITUTE changes nothing when the searched text does not occur** (or is empty), whatever the
+instance number -/
+theorem substitute_absent (old new : List Char) (inst : Option Nat) :
+    ∀ (fuel seen : Nat) (s : List Char), Absent old s → substitute old new inst fuel seen s = s
+  | 0, _, s, _ => by cases s <;> simp [substitute]
+  | fuel + 1, seen, [], _ => by simp [substitute]
+  | fuel + 1, seen, c :: s, h => by
+    obtain ⟨h1, h2⟩ := h
+    simp only [substitute, h1, Bool.false_eq_true, if_false]
+    split
+    · rfl
+    · rw [substitute_absent old new inst fuel seen s h2]
+
+theorem substitute_empty_old (new : List Char) (inst : Option Nat) (fuel seen : Nat) (s : List Char) :
+    substitute [] new inst fuel seen s = s := by
+  cases fuel <;> cases s <;> simp [substitute]
+
+/-- **an instance number below 1 is `#VALUE!`, whether or not the searched text occurs** -/
+theorem substitute_bad_instance (t o nw i : Val F) (k : Int) (hne : firstErr [t, o, nw, i] = none)
+    (hi : intArg i = .ok k) (hk : k < 1) : textFn "SUBSTITUTE" [t, o, nw, i] = some (.err .value) := by
+  simp [textFn, hne, hi, hk]
+
+example : Absent "xy".toList "axbyc".toList ∧ ¬ Absent "xy".toList "axyc".toList := by
+  simp [Absent, List.isPrefixOf]
+open XL.C02 in
+example : textFn "SUBSTITUTE" [(.text "a-b-c" : Val Int), .text "x", .text "+", .num 0] = some (.err .value) ∧
+    textFn "SUBSTITUTE" [(.text "a-b-c" : Val Int), .text "-", .text "+", .num 2] = some (.text "a-b+c") := by decide +kernel
 end XL.C12
